@@ -20,6 +20,95 @@ from . import e2e
 PROP = "C03"
 
 
+def clause_ops(sol):
+    """the model operations (oratio_model flaw) for the flaw graph of a solution: one per expanded flaw, per activate /
+    unify resolver of an atom flaw; None when the graph does not carry literal ids"""
+    g = sol.graph
+    if not g or any("phi_lit" not in f for f in g):
+        return None
+    aflaw = {f["data"]["atom"]: f for f in g if f["data"].get("type") in ("fact", "goal")}
+    ops = []
+    for f in g:
+        if not f["expanded"]:
+            continue
+        ops.append("expand " + f["phi_lit"] + (" 1 " if f["exclusive"] else " 0 ") + " ".join(r["rho_lit"] for r in f["resolvers"]))
+        if f["data"].get("type") not in ("fact", "goal"):
+            continue
+        sigma = "+" + str(f["data"]["sigma"])
+        for r in f["resolvers"]:
+            t = r["data"].get("type")
+            if t == "activate":
+                ops.append(f"activate {r['rho_lit']} {sigma}")
+            elif t == "unify":
+                tf = aflaw.get(int(r["data"]["target"]))
+                if tf is None:
+                    continue
+                acts = [x for x in tf["resolvers"] if x["data"].get("type") == "activate"]
+                if len(acts) != 1:
+                    continue
+                # the equality literal is not exposed: TRUE stands in for it (its clause is then trivial)
+                ops.append(f"unify {r['rho_lit']} {sigma} +{tf['data']['sigma']} -0 {acts[0]['rho_lit']} {tf['phi_lit']}")
+    return ops
+
+
+def parse_cnf(txt):
+    return [frozenset(c.split()) for c in txt.strip("[]").split("][") if c] if txt else []
+
+
+def trivial(c):
+    return "-0" in c or any((("-" if l[0] == "+" else "+") + l[1:]) in c for l in c)
+
+
+def clause_part(rep, tier, cfg, progs, stats):
+    """clause-level tie of the model's clause generators (OratioModel/Solver/Flaw.lean, the subject of the C03 theorems)
+    to the code: for the flaw graph the REAL solver ended with, every clause the model says flaw::expand /
+    add_resolver / activate_*::apply / unify_atom::apply / new_causal_link post must have been given to
+    sat_core::new_clause during the run (observer hook), unless it is a tautology or contains the TRUE literal"""
+    import os
+    exe = e2e.harness(cfg)
+    lines = ["solve " + p[0].encode("utf-8").hex() for p in progs]
+    outs, _ = vlib.run_impl_parallel(vlib.impl_cmd(exe, ["5"]), lines, timeout=1800, env=dict(os.environ, VERIF_CLAUSES="1"))
+    mlines, who = [], []
+    posted = {}
+    for k, ((txt, meta), o) in enumerate(zip(progs, outs)):
+        if e2e.verdict(o) != "T" or " \tCL " not in o:
+            continue
+        body, cl = o.split(" \tCL ", 1)
+        sol = e2e.solution(body)
+        ops = clause_ops(sol)
+        if ops is None:
+            rep.violation("the flaw graph dump carries no literal ids (harness / hook out of date)", {"kind": "harness", "theorem_or_correspondence": "harness/solve.cpp graph dump", "log": o[:500]}, no_input=True)
+            return
+        posted[k] = set(parse_cnf(cl))
+        mlines += ops
+        who += [k] * len(ops)
+    stats["clause_level"] = {"programs": len(posted), "model_operations": len(mlines), "expected_clauses": 0, "trivial": 0}
+    if not mlines:
+        return
+    mo, _ = vlib.run_lines([vlib.model_exe(), "flaw"], mlines, timeout=600)
+    worst = None
+    for op, got, k in zip(mlines, mo, who):
+        if got is None or got.startswith("exception"):
+            rep.violation(f"the clause model rejects `{op}`", {"kind": "driver", "theorem_or_correspondence": "oratio_model flaw", "log": str(got)}, no_input=True)
+            return
+        for c in parse_cnf(got):
+            stats["clause_level"]["expected_clauses"] += 1
+            if trivial(c):
+                stats["clause_level"]["trivial"] += 1
+            elif c not in posted[k]:
+                txt = progs[k][0]
+                if worst is None or len(txt) < len(worst[0]):
+                    worst = (txt, outs[k], f"the model posts clause [{' '.join(sorted(c))}] for `{op}` but the solver never gave it to new_clause")
+    if worst:
+        txt, o, msg = worst
+        r = e2e.replay_of(txt, cfg, o)
+        r["kind"] = "correspondence"
+        r["theorem_or_correspondence"] = "clause generators of OratioModel/Solver/Flaw.lean vs the clauses posted by the solver"
+        # a clause the model posts and the code does not is a broken correspondence, not yet a plan that violates the
+        # property: the final-state oracle above is the search for such a plan (its finding, if any, is reported apart)
+        rep.violation(f"[{cfg}] {msg[:500]}", r, tags={"clauses:" + cfg}, no_input=True)
+
+
 def run(tier, seed, replay=None):
     rep = vlib.Report(PROP, tier, seed)
     rep.assumptions = ["the search is not modelled: the theorems say what any assignment satisfying the posted clauses looks like; that the real final state is such an assignment is what the oracle checks on every generated program",
@@ -72,6 +161,9 @@ def run(tier, seed, replay=None):
             if worst:
                 txt, o, msg = worst
                 rep.violation(f"[{cfg}] {msg[:500]}", e2e.replay_of(txt, cfg, o), tags={"plan:" + cfg})
+        cstats = {}
+        clause_part(rep, tier, e2e.cfgs(tier)[0], [p for p in progs if p[1]["kind"] == "plan"][: (400 if tier == "quick" else 4000)], cstats)
+        feat.update(cstats)
     except vlib.BuildFailure as e:
         rep.violation("the solver does not build in a supported configuration", {"kind": "build", "theorem_or_correspondence": "cmake build of /repo", "log": str(e)}, no_input=True)
     rep.cov.update({
